@@ -418,6 +418,7 @@ func (c *Client) send(dest net.Addr, msg *dhcpv6.Message) (<-chan *dhcpv6.Messag
 		// lock, and then we can take the lock and remove the XID from
 		// the pending transaction map.
 		close(done)
+		verifPoint("cancel.gap")
 
 		c.pendingMu.Lock()
 		if p, ok := c.pending[msg.TransactionID]; ok {
